@@ -406,6 +406,14 @@ func (h *H) drain(done func() bool) {
 		if !h.App.InCall() {
 			continue // returned a message or an error; read on
 		}
+		// (before the verdict: a quiet period as long as the hang oracle's,
+		// not the 100 ms which suffice on the way)
+		if h.PollQuiet(4*time.Second, func() bool { h.PollExchanges(); return done() || !h.App.InCall() }) {
+			if done() {
+				return
+			}
+			continue
+		}
 		h.Failf("drain: the environment is healthy and the read routine waits for input, yet the awaited condition does not hold: %s", h.pendingSummary())
 	}
 }
